@@ -19,6 +19,15 @@ CLAIMED = {
    note=TRUST + 'Assumed contracts: abstract Bound API (sample returns points inside the bound and cube; contains is a pure function of geometry; '
         'C07), evaluate_likelihood (C03), write*/accessors read-only (C11), resume restores fields (C05). Bounded stand-in (thorough): runtime monitor on 8 scenarios.',
    tech='contract-based deductive verification: AST symbolic execution + loop invariants + z3/cvc5 (self-built VC generator)', ref='7 C01'),
+ 'C02': dict(
+   text='Deductive proof: update_shell_info establishes, for its shell and for every input, exactly the per-shell estimators of the stored log-likelihoods in the current view (size, '
+        'bound volume x accepted fraction, mean likelihood, Kish size; -inf/nan conventions for empty shells) and touches no other entry; a ghost up-to-date bit per bound - cleared by '
+        'every write to an input of those formulas (the shell\'s log_l, its proposal counter, the bound\'s sampling state, the view parameters) or to the statistic arrays, set only by '
+        'update_shell_info - is invariantly true for every sampled shell after add_bound, add_samples, the discard setter and every branch of run(); never more samples than proposals in '
+        'either view; log_z is the logsumexp over non-empty shells of (mean likelihood + volume); posterior() weights are shell volume / max(n,1) x likelihood.',
+   note=TRUST + 'The Kish identity / evidence sum as mathematical lemmas and the n_eff, eta closed forms are not machine-checked (their bodies are proved read-only in C11); -inf/nan are '
+        'distinguished constants with uninterpreted log/exp/logsumexp (term equalities). Soundness of the up-to-date bit rests on the mechanical store hooks of the executor.',
+   tech='contract-based deductive verification with ghost dirty-bit state, z3', ref='7 C02'),
  'C03': dict(
    text='Deductive proof: (1) Sampler.evaluate_likelihood (whole body, scalar/vectorised/pool, array or dictionary prior, any batch size >= 1): returned log_l[j] and blob[j] are the '
         'likelihood and blob of points[j] in proposal order, blob array has one row per point (binary squeeze semantics incl. the single-row case), the caller\'s array is untouched even '
